@@ -74,6 +74,9 @@ def spec(tier, seed):
         hs.append(Harness(name, obligation=obl, encodes=ENC, bounds=B, timeout_s=600 if "_iterate_" not in name else 2400,
                           tiers=("quick", "thorough") if "_iterate_" not in name else ("thorough",)))
     for i, (name, _, obl) in enumerate(more):
+        # iteration over three records is heavy: only two of the additional shapes keep it
+        if "_iterate_" in name and not (name.startswith("c18_iterate_h0_0_1_s0") or name.startswith("c18_iterate_h1_0_0_s0")):
+            continue
         hs.append(Harness(name, obligation=obl, encodes=ENC, bounds=B, timeout_s=1800, tiers=("thorough",)))
     hs.append(Harness("c18_vacuity_witness", expect_fail=True, obligation="twin: file model write/read_at reachable", timeout_s=120))
     u = Unit("seglog_c18", generate, hs, kani_flags=("-Z", "stubbing"), jobs=3, workers=5, crate_subdir="seglog", harness_prefix="verif::c18::", playback=False)
